@@ -28,7 +28,8 @@ def run(chk, tier, seed):
     m = sc.b3(chk, b3_configs(tier))
     k = 80 if tier == "quick" else 800
     scns = storegen.forest_scenarios(k, seed, ug=False, tag="c12a", maxtrees=6) + \
-        storegen.forest_scenarios(k, seed, ug=True, tag="c12b", maxtrees=6) + storegen.small_forests_exhaustive(2)
+        storegen.forest_scenarios(k, seed, ug=True, tag="c12b", maxtrees=6) + storegen.small_forests_exhaustive(2) + \
+        storegen.filter_scenarios(k, seed)
     st = {}
     n, ndrift = sc.run_and_validate(chk, scns, CLAUSES, stats=st)
     nontriv = sum(1 for s in scns if len({x["job"] for x in s["runs"][0]["spans"]}) >= 2)
@@ -36,7 +37,8 @@ def run(chk, tier, seed):
            "transitions": m["transitions"] + st.get("conf_generated", 0) + st.get("obs_generated", 0),
            "traces_validated_against_impl": n, "evaluations": n, "distinct_nontrivial": nontriv,
            "rule": "seeded forests of 1-6 traces over two workflow names (spans of a trace may carry another name before "
-                   "cleaning), ingested trace by trace / interleaved / in any order / children first, batch sizes {1..7,50}, without and with the unique-graph filter; "
+                   "cleaning), ingested trace by trace / interleaved / in any order / children first, batch sizes {1..7,50}, without and with the unique-graph filter, and with arbitrary name -> trace-id "
+                   "filters (true pairs, traces listed under another workflow's name, unknown ids); "
                    "non-trivial = store with at least two traces",
            "model_runs": m["runs"], "model_drift_executions": ndrift, "conformance_action_counts": st.get("actions", {}),
            "exhaustive": False}
